@@ -190,6 +190,12 @@ class scrypt(KDFAdapter):
 
 class blake2b(KDFAdapter, MACAdapter, HashAdapter):
     def __init__(self, *, length=64):
+        if (
+            not isinstance(length, int)
+            or isinstance(length, bool)
+            or not 1 <= length <= hashlib.blake2b.MAX_DIGEST_SIZE
+        ):
+            raise ValueError('Invalid digest size')
         self.digest_size = length
 
     def generate_derivation_params(self):
@@ -253,6 +259,10 @@ class gclmulchunker(ChunkerAdapter):
     alignment = 4
 
     def __init__(self, *, min_length=MIN_LENGTH, max_length=MAX_LENGTH):
+        for length in (min_length, max_length):
+            if not isinstance(length, int) or isinstance(length, bool) or length < 1:
+                raise ValueError('Chunk lengths must be positive integers')
+
         if min_length > max_length:
             raise ValueError(
                 f'Minimum length ({min_length}) is greater '
@@ -305,11 +315,16 @@ _adapters = [
 _adapters_mapping = {a.__name__: a for a in _adapters}
 
 
-def from_config(name, **kwargs):
+def from_config(name, *, kind=None, **kwargs):
     try:
         adapter_type = _adapters_mapping[name]
-    except KeyError:
+    except (KeyError, TypeError):
         raise LookupError(f'Unrecognized adapter {name!r}') from None
+
+    if kind is not None and not issubclass(adapter_type, kind):
+        raise exceptions.ReplicatError(
+            f'Adapter {name} cannot be used as {kind.__name__}'
+        )
 
     signature = inspect.signature(adapter_type)
 
